@@ -19,8 +19,14 @@ def build_doc(doc):
     (TaxonNamespace, [Tree,...]) built through the Node API only (no parser)."""
     ns = TaxonNamespace()
     by = {}
-    for lab in doc["ns"]:
+    # optional doc["ns_all"]: labels created first, those not in doc["ns"] are removed again
+    # (namespace with removed taxa: accession indices are no longer list positions)
+    for lab in doc.get("ns_all") or doc["ns"]:
         by[lab] = ns.new_taxon(label=lab)
+    for lab in doc.get("ns_all") or []:
+        if lab not in doc["ns"]:
+            ns.remove_taxon(by.pop(lab))
+    assert [t.label for t in ns._taxa] == list(doc["ns"]), "ns_all must list doc['ns'] in order"
     trees = []
 
     def mk(n):
